@@ -50,6 +50,18 @@ def _csum(y, c, x, n):
     return float(sum(y[s] for s in range(_rng(n, 'csum length')) if int(c[s]) == int(x)))
 
 
+def _p2in(W, ix, i1, m):
+    i1, m = int(i1), _rng(m, 'p2in bound')
+    if not 0 <= i1 <= NMAX:
+        _undefined('p2in mode')
+    return float(sum(W[i1][i2][int(ix[i1])][int(ix[i2])] for i2 in range(i1 + 1, m)))
+
+
+def _p2out(W, ix, n, m):
+    n, m = _rng(n, 'p2out length'), _rng(m, 'p2out bound')
+    return float(sum(_p2in(W, ix, i1, n) for i1 in range(m)))
+
+
 def _rsum(y, n):
     return float(sum(y[s] for s in range(_rng(n, 'rsum length'))))
 
@@ -67,7 +79,8 @@ def _rmean(y, n):
     return _rsum(y, n) / int(n)
 
 
-INTERP_EXT = {'dotp': _dotp, 'asum': _asum, 'ccnt': _ccnt, 'csum': _csum, 'rsum': _rsum, 'cmean': _cmean, 'rmean': _rmean}
+INTERP_EXT = {'dotp': _dotp, 'asum': _asum, 'ccnt': _ccnt, 'csum': _csum, 'rsum': _rsum, 'cmean': _cmean, 'rmean': _rmean,
+              'p2in': _p2in, 'p2out': _p2out}
 
 
 def _wrap_sample(mod):
@@ -78,6 +91,9 @@ def _wrap_sample(mod):
     def sample(sort, rng):
         if sort == X.RAA:
             return {k: {m: float(rng.integers(-3, 4)) for m in range(NMAX + 1)} for k in range(NMAX + 1)}
+        if sort == X.RAAAA:
+            tab = lambda: {a: {b: float(rng.integers(-3, 4)) for b in range(3)} for a in range(3)}
+            return {k: {m: tab() for m in range(NMAX + 1)} for k in range(NMAX + 1)}
         return orig(sort, rng)
 
     sample._mx_anova = True
@@ -88,12 +104,12 @@ def _wrap_sample(mod):
 
 
 def _wrap_check(mod):
-    """The step axiom of dotp needs c + 1 <= cols(A), rows(B) and both entries in range: about one random instance in a hundred
-    is inside the domain, so this one axiom gets ten times the number of tries (a falsifying instance would still be reported)."""
+    """The step axiom of dotp needs c + 1 <= cols(A), rows(B) and both entries in range (that of p2in: i < m = j - 1): about one random
+    instance in a hundred is inside the domain, so these axioms get ten times the number of tries (a falsifying instance would still be reported)."""
     orig = mod.check_axiom
     if getattr(orig, '_mx_anova', False):
         return
-    rare = {T.GROUPS['dotp'][1].get_id()}
+    rare = {T.GROUPS['dotp'][1].get_id(), T.GROUPS['psum2'][1].get_id()}
 
     def check_axiom(ax, rng, tries=400):
         return orig(ax, rng, tries * 10 if ax.get_id() in rare else tries)
@@ -117,7 +133,7 @@ def _self_test(mod, seed=1):
     mod.INTERP.update(INTERP_EXT)
     mod.sample = sample
     try:
-        for g in ('dotp', 'slent', 'asum', 'csum', 'cmean'):
+        for g in ('dotp', 'slent', 'asum', 'csum', 'cmean', 'psum2'):
             for n, ax in enumerate(T.GROUPS[g]):
                 exercised, bad = mod.check_axiom(ax, rng)
                 if bad is not None or exercised == 0:
